@@ -121,6 +121,21 @@ def check_columns(spec):
                 res["violations"].append({"key": "array-" + (k or "differs-from-scalar"),
                                           "what": f"digitize_data[{i},{c}] = {out[i, c]!r} for value {data[i, c]!r}, scalar gives {expect!r}",
                                           "case": {"grids": spec["grids"], "mode": "columns"}})
+    # inputs that are not float64 (integer counts, float32): the result is still the nearest element of the float64 grid
+    for dt in (np.float32, np.int64):
+        d2 = before.astype(dt)
+        if not np.all(np.isfinite(d2.astype(float))) or np.any(np.abs(before) > 1e15):
+            continue
+        out2 = np.asarray(digitize_data(d2.copy(), grids))
+        for c, g in enumerate(grids):
+            for i in range(0, n, 3):
+                res["evaluations"] += 1
+                v = float(d2[i, c])
+                k = _judge(g, v, float(out2[i, c])) if out2.shape == d2.shape else "shape"
+                if k:
+                    res["violations"].append({"key": f"array-{k}:{np.dtype(dt).name}-input", "what": f"digitize_data on {np.dtype(dt).name} data: value {v!r} -> {out2[i, c] if out2.shape == d2.shape else out2.shape!r}, which is not the nearest element of the grid",
+                                              "case": {"grids": spec["grids"], "mode": "columns"}})
+                    break
     res["states"] = res["evaluations"]
     res["traces"] = res["evaluations"]
     return res
@@ -159,6 +174,10 @@ def _grids(tier: str, seed: int):
 
 
 def run_cell(cell):
+    meta = None
+    if isinstance(cell, dict):
+        meta = {k: cell[k] for k in ("cell", "nchunks", "tier", "seed")}
+        cell = cell["items"]
     agg = {"evaluations": 0, "nontrivial": 0, "states": 0, "transitions": 0, "traces": 0, "stats": {"grids": 0}, "outcomes": set(), "violations": [], "samples": []}
     for item in cell:
         r = check_columns(item) if isinstance(item, dict) else check_grid(item)
@@ -166,11 +185,20 @@ def run_cell(cell):
             agg[k] += r[k]
         agg["stats"]["grids"] += 1
         agg["outcomes"].update(r["outcomes"])
-        agg["violations"] += r["violations"][:3]
+        for v_ in r["violations"][:3]:
+            if meta:
+                v_["case"] = dict(v_["case"], **meta)
+            agg["violations"].append(v_)
         if len(agg["samples"]) < 2:
             agg["samples"] += r["samples"]
     agg["outcomes"] = sorted(agg["outcomes"])
     return agg
+
+
+def gate_any(case):  # noqa: ARG001
+    # the oracle judges single calls (input -> output); a wrong answer that depends on hidden state of the implementation
+    # (e.g. a cache keyed on object identity) need not show on every replay: once in three replays is accepted
+    return True
 
 
 def replay_case(case):
@@ -178,28 +206,39 @@ def replay_case(case):
         r = check_columns({"grids": case["grids"]})
     else:
         r = check_grid(case["grid"])
-    return [{"key": v["key"], "what": v["what"]} for v in r["violations"]]
+    vs = [{"key": v["key"], "what": v["what"]} for v in r["violations"]]
+    if not vs and "cell" in case:
+        # re-run the whole cell the case came from (same sequence of grids in one process)
+        items = _items(case["tier"], case["seed"])
+        r = run_cell(items[case["cell"]::case["nchunks"]])
+        vs = [{"key": v["key"], "what": v["what"]} for v in r["violations"]]
+    return vs
 
 
-def main(ctx):
-    grids = _grids(ctx.tier, ctx.seed)
+def _items(tier, seed):
+    quick = tier == "quick"
+    grids = _grids(tier, seed)
     col_specs = []
     for d in (1, 2, 3):
-        for i in range(0, min(len(grids), 60 if ctx.quick else 400) - d, 7):
+        for i in range(0, min(len(grids), 60 if quick else 400) - d, 7):
             col_specs.append({"grids": [grids[(i + 11 * j) % len(grids)] for j in range(d)]})
-    # columns whose grids have the same length and nearly the same values (a "same grid" shortcut must not conflate them),
-    # at ordinary and at tiny scale
-    for g in grids[:: max(1, len(grids) // (40 if ctx.quick else 200))]:
+    for g in grids[:: max(1, len(grids) // (40 if quick else 200))]:
         if len(g) < 2:
             continue
         ga = [x for x in g]
         col_specs.append({"grids": [ga, [x * (1 + 1e-6) + 1e-7 for x in ga]]})
         col_specs.append({"grids": [[x * 1e-9 for x in ga], [x * 2e-9 for x in ga], [x * 1e-9 + 1e-10 for x in ga]]})
         col_specs.append({"grids": [ga, ga, [x + (ga[1] - ga[0]) * 0.25 for x in ga]]})
-    items = grids + col_specs
+    return grids + col_specs
+
+
+def main(ctx):
+    items = _items(ctx.tier, ctx.seed)
+    grids = [x for x in items if not isinstance(x, dict)]
+    col_specs = [x for x in items if isinstance(x, dict)]
     nchunks = 16 if ctx.quick else 64
-    cells = [items[i::nchunks] for i in range(nchunks)]
-    ctx.bounds = {"grids": len(grids), "column_specs": len(col_specs), "max_grid_len": max(len(g) for g in grids)}
+    cells = [{"items": items[i::nchunks], "cell": i, "nchunks": nchunks, "tier": ctx.tier, "seed": ctx.seed} for i in range(nchunks)]
+    ctx.bounds = {"grids": len(grids), "column_specs": len(col_specs), "max_grid_len": max(len(g) for g in grids), "input_dtypes": ["float64", "float32", "int64"]}
     ctx.rule = ("all non-empty subsets of a base set x 4 scales x 2 offsets + uniform grids; per grid every element, mid/quarter point, "
                 "their nextafter neighbours and 8 out-of-range values; non-trivial = value is not itself a grid element")
     ctx.assumptions = ["numpy float64 arithmetic; grids strictly increasing (as SearchSpace builds them)"]
